@@ -60,6 +60,12 @@ def _spec(module):
             'units': {'cJSON.c': 'tables_bad.c', 'cJSON_Utils.c': 'utils_min.c'},
             'rules': [parse.tab4, parse.tab5a, parse.tab6, parse.tab7, parse.c02_structure, parse.c03_structure],
         }]
+    if module == 'print':
+        from . import outbuf, outsym
+        return [{
+            'units': {'cJSON.c': 'print_bad.c', 'cJSON_Utils.c': 'utils_min.c'},
+            'rules': [outbuf.out1, outbuf.out4, outbuf.tab2_print, outbuf.tab5bc, outbuf.tab15, outbuf.tab16, outsym.out23],
+        }]
     raise AnalysisBroken('no fixture spec for module %s' % module)
 
 
